@@ -79,6 +79,7 @@ type modelProbe struct {
 }
 
 type Unit struct {
+	liveDepth int
 	blkMarks []blkMark      // (item index, block of the top-level function) in emission order
 	curBlk   int            // block of the top-level function being executed (-1 before / outside)
 	topFn    *ssa.Function  // the function under verification (for the ancestor relation of its blocks)
